@@ -160,13 +160,23 @@ def check_run(r, cfg):
         # caps: per step, normal agents are consulted only while fewer than maxNormalOrders of them have produced orders; after each
         # producing normal agent, high-frequency agents are consulted only while fewer than maxHighFrequencyOrders of them have produced
         cap_n, cap_h = ses.max_normal_orders, ses.max_high_frequency_orders
+        n_hft = len(s.high_frequency_agents)
+        always = ses.high_frequency_submission_rate >= 1.0
+
+        def batch_done(t_, consulted_h_, produced_h_):
+            # after a batch, with submission probability 1, the high-frequency agents are consulted until the cap is reached or all of them have been asked
+            if always and ses.with_order_placement and consulted_h_ is not None and not (produced_h_ >= cap_h or consulted_h_ >= n_hft):
+                raise V_(R + "._handle_orders", "C09 after each accepted batch the high-frequency agents are consulted until maxHighFrequencyOrders of them have produced orders (or all were asked)",
+                         dict(step=t_, cap=cap_h, produced=produced_h_, consulted=consulted_h_, hft_agents=n_hft))
         for t in range(lo, hi):
-            produced_n = 0; produced_h = 0
+            produced_n = 0; produced_h = 0; consulted_h = 0; cur = None      # cur: the normal agent whose batch is being handled (one batch per agent and step)
             for e in EV:
                 if e[0] in ("cb_sub", "cb_can"):        # agent callbacks are synchronous (logger records may be delivered later)
                     et = e[2].time if e[0] == "cb_sub" else e[2].cancel_time
-                    if et == t and not isinstance(s.id2agent[e[1]], sim.RandHFT):
-                        produced_h = 0          # an accepted order / cancel of a normal agent: a new batch, the high-frequency phase follows it
+                    if et == t and not isinstance(s.id2agent[e[1]], sim.RandHFT) and e[1] != cur:
+                        if cur is not None:
+                            batch_done(t, consulted_h, produced_h)
+                        cur = e[1]; produced_h = 0; consulted_h = 0
                     continue
                 if e[0] not in ("consult", "produced") or e[2] != t:
                     continue
@@ -175,12 +185,16 @@ def check_run(r, cfg):
                     if not hft:
                         if produced_n >= cap_n:
                             raise V_(R + "._collect_orders_from_normal_agents", "C09 a normal agent is consulted only while fewer than maxNormalOrders agents have produced orders in this step", (t, cap_n, produced_n))
-                    elif produced_h >= cap_h:
-                        raise V_(R + "._handle_orders", "C09 a high-frequency agent is consulted only while fewer than maxHighFrequencyOrders of them have produced orders after this batch", (t, cap_h, produced_h))
+                    else:
+                        if produced_h >= cap_h:
+                            raise V_(R + "._handle_orders", "C09 a high-frequency agent is consulted only while fewer than maxHighFrequencyOrders of them have produced orders after this batch", (t, cap_h, produced_h))
+                        consulted_h += 1
                 elif hft:
                     produced_h += 1
                 else:
                     produced_n += 1
+            if cur is not None:
+                batch_done(t, consulted_h, produced_h)
         t0 = hi
     # ---- C17 index
     for m in s.markets:
